@@ -632,66 +632,124 @@ func c17Operators(p *Prog, c *Check) {
 }
 
 // matchOperatorTable: the value-level semantics of a predicate. Every successful return of
-// ValuePredicate.Match sits under exactly one operator case p.Op == K, and returns, for the unsigned
-// operators, big.Int.Cmp(SetBytes(value), p.IntArgs[0]) compared with 0 by the relation the
-// operator's name stands for (full 256-bit comparison, no narrowing), and for BytesEq
-// bytes.Equal(value, p.ByteArgs[0]).
+// ValuePredicate.Match — followed into helpers whose verdict it returns — belongs to exactly one
+// operator (decided from the p.Op == K / p.Op != K facts on its path, by elimination over the finite
+// operator set), and returns, for the unsigned operators, big.Int.Cmp(SetBytes(value), p.IntArgs[0])
+// compared with 0 by the relation the operator's name stands for (full 256-bit comparison, no
+// narrowing), and for BytesEq bytes.Equal(value, p.ByteArgs[0]).
 func matchOperatorTable(p *Prog, c *Check, rule string) {
 	fn, err := p.Func(ssPkg + ".ValuePredicate.Match")
 	if !c.Must(err) {
 		return
 	}
 	c.Analysed(shortFn(fn))
-	fi := p.Info(fn)
 	want := map[string]string{"UintLt": "<", "UintLte": "<=", "UintEq": "==", "UintGt": ">", "UintGte": ">=", "BytesEq": "bytes"}
 	byVal := map[string]string{}
+	all := map[string]bool{}
 	for name := range want {
 		v, err := p.constValue(ssPkg, name)
 		if !c.Must(err) {
 			return
 		}
 		byVal[v] = name
+		all[name] = true
 	}
-	recv, value := fi.T(fn.Params[0]), fi.T(fn.Params[1])
+	rfi := p.Info(fn)
+	recv, value := rfi.T(fn.Params[0]), rfi.T(fn.Params[1])
 	seen := map[string]bool{}
-	for _, r := range returnsOf(fn) {
-		if fi.errIsNil(r.Results[1], r, 0) != yes {
-			continue
+	// opsIn: the operators compatible with a fact set (within `allowed`)
+	opsIn := func(facts []Atom, allowed map[string]bool, up func(*Term) *Term) map[string]bool {
+		out := map[string]bool{}
+		for k := range allowed {
+			out[k] = true
 		}
-		// the operator case this return belongs to
-		op := ""
-		for _, a := range fi.FactsAt(r) {
-			if a.Op == "==" && ParsePat("$p.Op").Match(a.L, Binds{"p": recv}) && a.R.K == TConst {
-				op = byVal[a.R.s]
+		for _, a := range facts {
+			l := up(a.L)
+			if !ParsePat("$p.Op").Match(l, Binds{"p": recv}) || a.R.K != TConst {
+				continue
 			}
-		}
-		key := "Match:case:" + op
-		if op == "" {
-			c.Fail(rule, "Match:ret@"+retKey(fi, r), p.siteOf(r), shortFn(fn), "successful return of Match", "a match verdict is returned outside the operator cases")
-			continue
-		}
-		seen[op] = true
-		t := fi.T(r.Results[0])
-		b := Binds{"p": recv, "v": value}
-		ok := false
-		switch want[op] {
-		case "bytes":
-			ok = ParsePat("bytes.Equal($v, $p.ByteArgs[0])").Match(t, b) || ParsePat("bytes.Equal($p.ByteArgs[0], $v)").Match(t, b)
-		default:
-			if t.K == TBin && len(t.Sub) == 2 {
-				rel, l, rr := t.Name, t.Sub[0], t.Sub[1]
-				// normalise `0 REL' cmp` to `cmp REL 0`
-				if z, isC := intConst(l); isC && z == 0 {
-					l, rr = rr, l
-					rel = map[string]string{"<": ">", "<=": ">=", ">": "<", ">=": "<=", "==": "=="}[rel]
+			name, known := byVal[a.R.s]
+			switch a.Op {
+			case "==":
+				for k := range out {
+					if !known || k != name {
+						delete(out, k)
+					}
 				}
-				if z, isC := intConst(rr); isC && z == 0 && rel == want[op] {
-					ok = ParsePat("Cmp(SetBytes(_, $v), $p.IntArgs[0])").Match(l, b)
+			case "!=":
+				if known {
+					delete(out, name)
 				}
 			}
 		}
-		c.Result(ok, rule, key, p.siteOf(r), shortFn(fn), "verdict of operator "+op, "the verdict is not the full-width comparison the operator stands for ("+want[op]+"): "+t.s, "Cmp(SetBytes(value), IntArgs[0]) "+want[op]+" 0")
+		return out
 	}
+	var visit func(v view, allowed map[string]bool, depth int)
+	visit = func(v view, allowed map[string]bool, depth int) {
+		f := v.fi.Fn
+		nres := f.Signature.Results().Len()
+		for _, r := range returnsOf(f) {
+			if nres == 2 && v.fi.errIsNil(r.Results[1], r, 0) != yes {
+				// a failing return, or a pass-through of a helper's (verdict, error) pair
+				if call, isCall := passThroughCall(r); isCall && depth < 3 {
+					if h := call.Common().StaticCallee(); h != nil && inModule(h) && h.Blocks != nil {
+						for _, pf := range v.fi.pathFactSets(r.Block()) {
+							visit(calleeView(p, v, call), opsIn(pf, allowed, v.up), depth+1)
+						}
+					}
+				}
+				continue
+			}
+			for _, pf := range v.fi.pathFactSets(r.Block()) {
+				ops := opsIn(pf, allowed, v.up)
+				if len(ops) == 0 {
+					continue // infeasible path
+				}
+				// verdict computed by a helper
+				if call, isCall := r.Results[0].(*ssa.Call); isCall && depth < 3 {
+					if h := call.Common().StaticCallee(); h != nil && inModule(h) && h.Blocks != nil && !call.Common().IsInvoke() {
+						c.Analysed(shortFn(h))
+						visit(calleeView(p, v, call), ops, depth+1)
+						continue
+					}
+				}
+				t := v.up(v.fi.T(r.Results[0]))
+				if len(ops) != 1 {
+					var names []string
+					for k := range ops {
+						names = append(names, k)
+					}
+					sort.Strings(names)
+					c.Fail(rule, "Match:ret@"+shortFn(f)+":"+retKey(v.fi, r), p.siteOf(r), shortFn(f), "successful return of Match", "a match verdict is returned on a path that is not tied to one operator (possible: "+strings.Join(names, ",")+")")
+					continue
+				}
+				op := ""
+				for k := range ops {
+					op = k
+				}
+				seen[op] = true
+				b := Binds{"p": recv, "v": value}
+				ok := false
+				switch want[op] {
+				case "bytes":
+					ok = ParsePat("bytes.Equal($v, $p.ByteArgs[0])").Match(t, b) || ParsePat("bytes.Equal($p.ByteArgs[0], $v)").Match(t, b)
+				default:
+					if t.K == TBin && len(t.Sub) == 2 {
+						rel, l, rr := t.Name, t.Sub[0], t.Sub[1]
+						if z, isC := intConst(l); isC && z == 0 {
+							l, rr = rr, l
+							rel = map[string]string{"<": ">", "<=": ">=", ">": "<", ">=": "<=", "==": "=="}[rel]
+						}
+						if z, isC := intConst(rr); isC && z == 0 && rel == want[op] {
+							ok = ParsePat("Cmp(SetBytes(_, $v), $p.IntArgs[0])").Match(l, b)
+						}
+					}
+				}
+				c.Result(ok, rule, "Match:case:"+op, p.siteOf(r), shortFn(f), "verdict of operator "+op, "the verdict is not the full-width comparison the operator stands for ("+want[op]+"): "+siteTag.ReplaceAllString(t.s, ""), "Cmp(SetBytes(value), IntArgs[0]) "+want[op]+" 0")
+			}
+		}
+	}
+	visit(view{rfi, func(t *Term) *Term { return t }}, all, 0)
 	n := 0
 	for op := range want {
 		if seen[op] {
@@ -701,4 +759,33 @@ func matchOperatorTable(p *Prog, c *Check, rule string) {
 		}
 	}
 	c.Floor(rule, n, 6)
+}
+
+// passThroughCall: `return h(...)` of a multi-result call (all results extracted from one call).
+func passThroughCall(r *ssa.Return) (*ssa.Call, bool) {
+	var call *ssa.Call
+	for i, res := range r.Results {
+		ex, ok := res.(*ssa.Extract)
+		if !ok || ex.Index != i {
+			return nil, false
+		}
+		cl, ok := ex.Tuple.(*ssa.Call)
+		if !ok || (call != nil && cl != call) {
+			return nil, false
+		}
+		call = cl
+	}
+	return call, call != nil
+}
+
+// calleeView: the view of the static callee of call, seen from v.
+func calleeView(p *Prog, v view, call *ssa.Call) view {
+	h := origin(call.Common().StaticCallee())
+	m := map[string]*Term{}
+	for i, prm := range h.Params {
+		if i < len(call.Common().Args) {
+			m[prm.Name()] = v.fi.T(call.Common().Args[i])
+		}
+	}
+	return view{p.Info(h), func(t *Term) *Term { return v.up(t.subst(m)) }}
 }
